@@ -85,7 +85,7 @@ func (c *Ctx) ProbeN(name string, n int) {
 }
 
 // Event counts simulated events (deliveries, operations, steps).
-func (c *Ctx) Event(n int) { c.res.Events += n }
+func (c *Ctx) Event(n int) { c.res.Events += n; beat() }
 
 // Evals counts oracle evaluations beyond the run itself (crash scenarios,
 // damaged reads, tampered inputs...).
@@ -167,6 +167,13 @@ type Rig struct {
 	RunsPerProcess int
 	// RunTimeout is the wall-clock watchdog per run (0 = 120s).
 	RunTimeout time.Duration
+	// HangTimeout/OnHang: a run whose Ctx.Event has not been called for
+	// HangTimeout of wall-clock time is presented, with a dump of all goroutine
+	// stacks, to OnHang; a non-nil result is reported as a violation (with the
+	// unshrunk tape as replay file, whose replay must hang the same way),
+	// otherwise the run goes on until RunTimeout (harness trouble, exit 2).
+	HangTimeout time.Duration
+	OnHang      func(stacks string) *Violation
 }
 
 var rigs = map[string]*Rig{}
